@@ -67,7 +67,7 @@ struct Cfg {
 }
 
 const NCFG: u64 = 3 * 2 * 3 * 2 * NL;
-const MGR_CASES: u64 = 8;
+const MGR_CASES: u64 = 8 * 4;
 /// pair family: two life-cycle commands of different kinds issued between the same two callbacks.
 /// cases = kind(3) x shape(2) x chunk(2) x first prefix letter (none-prefix + 13)
 const PAIR_CASES: u64 = 3 * 2 * 2 * (NL + 1);
@@ -164,7 +164,7 @@ impl Check for C03 {
 			);
 		}
 		if idx >= NCFG {
-			return format!("manager pass #{}: unloading and slot reuse (capacity-1 main track), all histories to depth 4 over {{none, stop(0), stop(2s), pause(0), resume(0)}}", idx - NCFG);
+			return format!("manager pass #{}: unloading and slot reuse (capacity-1 track: main / sub / spatial / spatial without listener; hosts other than main also compared with the main-track run), all histories to depth 4 over {{none, stop(0), stop(2s), pause(0), resume(0)}}", idx - NCFG);
 		}
 		let c = decode(idx);
 		format!(
@@ -764,11 +764,149 @@ fn model_target_reached(s: PlaybackState, target: &str) -> bool {
 // ---------------------------------------------------------------------------------------------
 // through the manager: unloading at the next callback, slot reuse
 
+const MGR_HOSTS: [&str; 4] = ["main track", "sub-track", "spatial sub-track", "spatial sub-track whose listener was removed"];
+
+enum MgrHost {
+	Main,
+	Sub(kira::track::TrackHandle),
+	Spatial(kira::track::SpatialTrackHandle, Option<kira::listener::ListenerHandle>),
+}
+impl MgrHost {
+	fn play<D: SoundData>(&mut self, m: &mut rig::Manager, d: D) -> Result<D::Handle, kira::PlaySoundError<D::Error>> {
+		match self {
+			MgrHost::Main => m.play(d),
+			MgrHost::Sub(t) => t.play(d),
+			MgrHost::Spatial(t, _) => t.play(d),
+		}
+	}
+	fn num_sounds(&self, m: &mut rig::Manager) -> usize {
+		match self {
+			MgrHost::Main => m.main_track().num_sounds(),
+			MgrHost::Sub(t) => t.num_sounds(),
+			MgrHost::Spatial(t, _) => t.num_sounds(),
+		}
+	}
+}
+
+/// one history through the manager; returns (failures, trace of (state, num_sounds) after every callback)
+fn mgr_run(streaming: bool, looping: bool, chunk: usize, host: usize, letters: &[usize]) -> (Vec<(String, String)>, Vec<(String, usize)>) {
+	use kira::track::{MainTrackBuilder, SpatialTrackBuilder, TrackBuilder};
+	let sr = 1;
+	let mut m = rig::manager(sr, 4, rig::caps(2), MainTrackBuilder::new().sound_capacity(1));
+	let mut buf = vec![0.0f32; chunk * 2];
+	let mut h = match host {
+		0 => MgrHost::Main,
+		1 => MgrHost::Sub(m.add_sub_track(TrackBuilder::new().sound_capacity(1)).expect("track")),
+		_ => {
+			let l = m.add_listener(glam::Vec3::ZERO, glam::Quat::IDENTITY).expect("listener");
+			let t = m.add_spatial_sub_track(&l, glam::Vec3::new(0.0, 0.0, -1.0), SpatialTrackBuilder::new().sound_capacity(1)).expect("spatial track");
+			MgrHost::Spatial(t, Some(l))
+		}
+	};
+	if host > 0 {
+		rig::callback(&mut m, &mut buf, chunk, 2);
+	}
+	if host == 3 {
+		if let MgrHost::Spatial(_, l) = &mut h {
+			*l = None;
+		}
+		rig::callback(&mut m, &mut buf, chunk, 2);
+	}
+	let frames = if looping { rig::dc_frames(4, 0.5) } else { rig::coded_frames(3, 0.125) };
+	let first_dec = pacer::count();
+	let mk_static = |frames: &Vec<Frame>| {
+		let d = rig::static_data(sr, frames.clone());
+		if looping {
+			d.loop_region(Region::from(..))
+		} else {
+			d
+		}
+	};
+	let mut handle: Box<dyn SoundHandle> = if streaming {
+		let (dec, _) = ScriptedDecoder::new(frames.clone(), sr, vec![2], 1);
+		let mut d = StreamingSoundData::from_decoder(dec);
+		if looping {
+			d = d.loop_region(Region::from(..));
+		}
+		Box::new(h.play(&mut m, d).map_err(|_| ()).expect("first play"))
+	} else {
+		Box::new(h.play(&mut m, mk_static(&frames)).expect("first play"))
+	};
+	let mut stopped_seen_at: Option<usize> = None;
+	let mut fails: Vec<(String, String)> = vec![];
+	let mut trace = vec![];
+	for (k, l) in letters.iter().enumerate() {
+		match l {
+			1 => handle.stop(tween(0.0, Easing::Linear)),
+			2 => handle.stop(tween(2.0, Easing::Linear)),
+			3 => handle.pause(tween(0.0, Easing::Linear)),
+			4 => handle.resume(tween(0.0, Easing::Linear)),
+			_ => {}
+		}
+		if streaming {
+			pacer::step_all_from(first_dec, chunk as u64 + 6);
+		}
+		let rep = rig::callback(&mut m, &mut buf, chunk, 2);
+		if !rep.ok() {
+			fails.push((format!("callback monitor: {:?}", rep.panic.clone().or(rep.bad_sample.clone())), format!("{:?}", rep)));
+			break;
+		}
+		let st = handle.state();
+		let n = h.num_sounds(&mut m);
+		trace.push((crate::probes::state_name(st).to_string(), n));
+		if let Some(at) = stopped_seen_at {
+			if k > at {
+				// unloaded at the next callback; slot reusable
+				if n != 0 {
+					fails.push(("Stopped sound not unloaded at the next callback".into(), format!("num_sounds={} at step {}", n, k)));
+					break;
+				}
+				match h.play(&mut m, mk_static(&frames)) {
+					Ok(h2) => {
+						// occupy and release again so the history can continue
+						let mut h2 = h2;
+						h2.stop(tween(0.0, Easing::Linear));
+					}
+					Err(_) => {
+						fails.push(("slot of a Stopped sound not reusable after the next callback".into(), format!("step {}", k)));
+					}
+				}
+				break;
+			}
+			if st != PlaybackState::Stopped {
+				fails.push(("Stopped is not final".into(), format!("state {:?} at step {}", st, k)));
+				break;
+			}
+		} else if st == PlaybackState::Stopped {
+			stopped_seen_at = Some(k);
+			if n > 1 {
+				fails.push(("count above capacity".into(), format!("num_sounds={}", n)));
+			}
+		} else {
+			if n != 1 {
+				fails.push(("live sound not counted".into(), format!("num_sounds={} state={:?} at step {}", n, st, k)));
+				break;
+			}
+			if h.play(&mut m, mk_static(&frames)).is_ok() {
+				fails.push(("play succeeds beyond the sound capacity".into(), format!("step {}", k)));
+				break;
+			}
+		}
+	}
+	// teardown
+	handle.stop(tween(0.0, Easing::Linear));
+	if streaming {
+		rig::callback(&mut m, &mut buf, chunk, 2);
+		pacer::step_all_from(first_dec, 3);
+	}
+	(fails, trace)
+}
+
 fn manager_pass(which: u64, ctx: &mut Ctx) {
-	use kira::track::MainTrackBuilder;
 	let streaming = which % 2 == 1;
 	let looping = (which / 2) % 2 == 1;
 	let chunk = [1usize, 3][((which / 4) % 2) as usize];
+	let host = (which / 8) as usize;
 	if streaming {
 		pacer::set_mode(pacer::Mode::Pacer);
 	}
@@ -786,101 +924,22 @@ fn manager_pass(which: u64, ctx: &mut Ctx) {
 		ctx.traces += 1;
 		let desc = || {
 			format!(
-				"manager pass streaming={} looping={} chunk={} history=[{}]",
+				"manager pass streaming={} looping={} chunk={} sound played on the {} history=[{}]",
 				streaming,
 				looping,
 				chunk,
+				MGR_HOSTS[host],
 				letters.iter().map(|l| ML[*l]).collect::<Vec<_>>().join("; ")
 			)
 		};
 		let r = catch(|| {
-			let sr = 1;
-			let mut m = rig::manager(sr, 4, rig::caps(2), MainTrackBuilder::new().sound_capacity(1));
-			let frames = if looping { rig::dc_frames(4, 0.5) } else { rig::coded_frames(3, 0.125) };
-			let first_dec = pacer::count();
-			let mk_static = |frames: &Vec<Frame>| {
-				let d = rig::static_data(sr, frames.clone());
-				if looping {
-					d.loop_region(Region::from(..))
-				} else {
-					d
+			let (mut fails, trace) = mgr_run(streaming, looping, chunk, host, &letters);
+			if host > 0 && fails.is_empty() {
+				// the life cycle does not depend on where the sound is hosted: same states, same counts as on the main track
+				let (f0, t0) = mgr_run(streaming, looping, chunk, 0, &letters);
+				if f0.is_empty() && t0 != trace {
+					fails.push(("the life cycle of a sound depends on the track that hosts it (states / counts differ from the same history on the main track)".into(), format!("on the {}: {:?}; on the main track: {:?}", MGR_HOSTS[host], trace, t0)));
 				}
-			};
-			let mut handle: Box<dyn SoundHandle> = if streaming {
-				let (dec, _) = ScriptedDecoder::new(frames.clone(), sr, vec![2], 1);
-				let mut d = StreamingSoundData::from_decoder(dec);
-				if looping {
-					d = d.loop_region(Region::from(..));
-				}
-				Box::new(m.play(d).map_err(|_| ()).expect("first play"))
-			} else {
-				Box::new(m.play(mk_static(&frames)).expect("first play"))
-			};
-			let mut buf = vec![0.0f32; chunk * 2];
-			let mut stopped_seen_at: Option<usize> = None;
-			let mut fails: Vec<(String, String)> = vec![];
-			for (k, l) in letters.iter().enumerate() {
-				match l {
-					1 => handle.stop(tween(0.0, Easing::Linear)),
-					2 => handle.stop(tween(2.0, Easing::Linear)),
-					3 => handle.pause(tween(0.0, Easing::Linear)),
-					4 => handle.resume(tween(0.0, Easing::Linear)),
-					_ => {}
-				}
-				if streaming {
-					pacer::step_all_from(first_dec, chunk as u64 + 6);
-				}
-				let rep = rig::callback(&mut m, &mut buf, chunk, 2);
-				if !rep.ok() {
-					fails.push((format!("callback monitor: {:?}", rep.panic.clone().or(rep.bad_sample.clone())), format!("{:?}", rep)));
-					break;
-				}
-				let st = handle.state();
-				let n = m.main_track().num_sounds();
-				if let Some(at) = stopped_seen_at {
-					if k > at {
-						// unloaded at the next callback; slot reusable
-						if n != 0 {
-							fails.push(("Stopped sound not unloaded at the next callback".into(), format!("num_sounds={} at step {}", n, k)));
-							break;
-						}
-						match m.play(mk_static(&frames)) {
-							Ok(h2) => {
-								// occupy and release again so the history can continue
-								let mut h2 = h2;
-								h2.stop(tween(0.0, Easing::Linear));
-							}
-							Err(_) => {
-								fails.push(("slot of a Stopped sound not reusable after the next callback".into(), format!("step {}", k)));
-							}
-						}
-						break;
-					}
-					if st != PlaybackState::Stopped {
-						fails.push(("Stopped is not final".into(), format!("state {:?} at step {}", st, k)));
-						break;
-					}
-				} else if st == PlaybackState::Stopped {
-					stopped_seen_at = Some(k);
-					if n > 1 {
-						fails.push(("count above capacity".into(), format!("num_sounds={}", n)));
-					}
-				} else {
-					if n != 1 {
-						fails.push(("live sound not counted".into(), format!("num_sounds={} state={:?} at step {}", n, st, k)));
-						break;
-					}
-					if m.play(mk_static(&frames)).is_ok() {
-						fails.push(("play succeeds beyond the sound capacity".into(), format!("step {}", k)));
-						break;
-					}
-				}
-			}
-			// teardown
-			handle.stop(tween(0.0, Easing::Linear));
-			if streaming {
-				rig::callback(&mut m, &mut buf, chunk, 2);
-				pacer::step_all_from(first_dec, 3);
 			}
 			fails
 		});
